@@ -234,6 +234,12 @@ def enum_dispatch(ctx: Ctx, fq: str, subject: str, fallthrough: Optional[Dict[st
     allm = set(p.enum_members(p.cls(enum_cls)).keys())
     missing = allm - tested
     covered_by_raise = False
+    # guards shared by every comparison of the chain (e.g. an enclosing 'if key in table:') do not count against a raise
+    common = None
+    for cmp_, _, _ in items:
+        fs_c = {(norm(a), pol) for a, pol in guards_at(cfg, cfg_node_of(cfg, fi, cmp_)) if not any(a is c for c, _, _ in items)}
+        common = fs_c if common is None else (common & fs_c)
+    common = common or set()
     if missing:
         for r in [n for n in body_walk(fi.node) if isinstance(n, ast.Raise)]:
             fs = guards_at(cfg, cfg_node_of(cfg, fi, r))
@@ -245,7 +251,7 @@ def enum_dispatch(ctx: Ctx, fq: str, subject: str, fallthrough: Optional[Dict[st
                         pinned = True
                     if (not pol) and isinstance(atom.ops[0], (ast.NotEq, ast.IsNot, ast.NotIn)):
                         pinned = True
-            other_guards = [a for a, pol in fs if not any(a is c for c, _, _ in items)]
+            other_guards = [a for a, pol in fs if not any(a is c for c, _, _ in items) and (norm(a), pol) not in common]
             if not pinned and not other_guards:
                 covered_by_raise = True
     short = enum_cls.rsplit(".", 1)[-1]
